@@ -368,7 +368,8 @@ def models_of_pc(pc, names, k, rng):
             if w and i:
                 b = rng.randrange(w)
                 s.add(z3.Extract(b, b, z3.BitVec(n, w)) == rng.getrandbits(1))
-        r = s.check()
+        from .check import z3_check
+        r = z3_check(s, 10)
         if r != z3.sat:
             s.pop()
             if i == 0:
@@ -428,22 +429,35 @@ def simulate_difference(pairs, pc, seed=0):
         else:
             stack.extend(T.node_deps(j))
     rng = random.Random(seed)
-    cands = corner_assignments(names, rng, nrand=1)
-    # cheap order: one random vector first (a wrong core differs on almost every input), then the carry corners
-    cands = [cands[8]] + cands[:2] + cands[12:13]
+    cands = corner_assignments(names, rng, nrand=2)
+    # cheap order: random vectors first (a wrong core differs on almost every input), then the carry corners
+    cands = [cands[8], cands[9]] + cands[:2] + cands[16:17]
+    repair = None       # an assignment of the path-condition variables that satisfies the path condition (from the solver, once)
     for asg in cands:
         ev = T.Evaluator(asg)
-        ok = True
-        for c, v in pc:
-            if ev.val(c) != (1 if v else 0):
-                ok = False
-                break
+        ok = all(ev.val(c) == (1 if v else 0) for c, v in pc)
         if not ok:
-            continue
+            # e.g. a random CPU-feature word almost never selects the arm under test: keep the data, repair the selector variables
+            if repair is None:
+                key = ('pcmodel', tuple(pc))
+                if key not in _PC_MODEL_CACHE:
+                    ms = models_of_pc(pc, names, 1, random.Random(seed + 1)) if pc else []
+                    pcvars = T.support([c for c, v in pc])[0] if pc else set()
+                    _PC_MODEL_CACHE[key] = {n: ms[0][n] for n in pcvars if n in ms[0]} if ms else {}
+                repair = _PC_MODEL_CACHE[key]
+            if not repair:
+                continue
+            asg = dict(asg, **repair)
+            ev = T.Evaluator(asg)
+            if not all(ev.val(c) == (1 if v else 0) for c, v in pc):
+                continue
         for g, e in pairs:
             if ev.val(g) != ev.val(e):
                 return asg
     return None
+
+
+_PC_MODEL_CACHE = {}
 
 
 # ------------------------------------------------------------------------------------------------------------
